@@ -11,6 +11,8 @@
 //     timeout, retries or cancellation must leave every score at zero; hitrun_test.go: "hit-and-run" offenders that
 //     close stream and connection right after the offending message - the offence is booked for the IP although the
 //     peer has left (ordering forced through the victim's logger), re-dials refused for the ban, admitted afterwards;
+//     size_test.go: large honest messages - well-formed requests and responses with payloads of 0 B .. 3 MiB in both
+//     directions (nodes and the raw multi-connection peer) are delivered intact and leave every score at zero;
 // (c) sync_test.go: generated valid and invalid sync requests against the real consensus/sync handlers of a harness
 //     consensus node (an invalid request gets the sender banned, a valid one never changes its score).
 package c18
